@@ -1,0 +1,30 @@
+//go:build verif
+
+package utils
+
+// Contracts for the deductive checker in /verif (comment-only; compiled only with -tags verif).
+// C07, Cosmos route: the reward claim that precedes the fee deduction. Lib specs: /verif/specs/c07, /verif/specs/c07f.
+
+/*@
+// Rewards are claimed only when the balance in the staking denomination does not cover the fee; then exactly the shortfall is
+// requested. A fee without the staking denomination is refused; with enough balance nothing is touched.
+func ClaimStakingRewardsIfNecessary
+    let bond = sk_bonddenom(stakingKeeper, ctx)
+    let need = amount[sk_bonddenom(stakingKeeper, ctx)]
+    let have = old(bank_bal)[acc_of_bytes(addr)][sk_bonddenom(stakingKeeper, ctx)]
+    requires keepers: bankKeeper != nil && stakingKeeper != nil
+    modifies bank_bal, distr_st, auth_accs
+    ensures wrong_denom: need == 0 ==> result != nil
+    ensures negative: need != 0 && have < 0 ==> result != nil
+    ensures enough: need != 0 && 0 <= have && have >= need ==> result == nil
+    ensures untouched: need == 0 || have < 0 || have >= need
+            ==> bank_bal == old(bank_bal) && distr_st == old(distr_st) && auth_accs == old(auth_accs)
+    ensures claimed: need != 0 && 0 <= have && have < need ==>
+            bank_bal == claim_bank(old(bank_bal), old(distr_st), old(auth_accs), ctx, addr, bond, need - have)
+            && distr_st == claim_distr(old(bank_bal), old(distr_st), old(auth_accs), ctx, addr, bond, need - have)
+            && auth_accs == claim_auth(old(bank_bal), old(distr_st), old(auth_accs), ctx, addr, bond, need - have)
+            && (result != nil) == claim_err(old(bank_bal), old(distr_st), old(auth_accs), ctx, addr, bond, need - have)
+    call ClaimSufficientStakingRewards requires shortfall: amount.Denom == old(sk_bonddenom(stakingKeeper, ctx))
+            && amount.Amount == old(amount[sk_bonddenom(stakingKeeper, ctx)] - bank_bal[acc_of_bytes(addr)][sk_bonddenom(stakingKeeper, ctx)])
+            && addr == old(addr) && ctx == old(ctx)
+@*/
